@@ -138,8 +138,12 @@ func parseCPUList(s string) ([]int, error) {
 		if b < a || b-a > 8192 {
 			return nil, fmt.Errorf("bad cpulist range %q", part)
 		}
-		for v := a; v <= b; v++ {
+		// v <= b as a loop condition never turns false when b is the largest int
+		for v := a; ; v++ {
 			out = append(out, v)
+			if v == b {
+				break
+			}
 		}
 	}
 	return out, nil
